@@ -179,6 +179,70 @@ func vC07Mutate(r *vRng, in []byte, other []byte) []byte {
 	return b
 }
 
+// "after-error reuse" inputs: a 2-byte big-endian length, a first part (meant to be rejected) and a
+// second part (meant to be valid); the decoder applies both to the SAME object and then calls its
+// accessors, all under the watchdog: an error path that leaves a lock held or a half-updated
+// state shows as a stall or a panic in the second step.
+func vC07Join2(p1, p2 []byte) []byte {
+	if len(p1) > 65535 {
+		p1 = p1[:65535]
+	}
+	return append(append([]byte{byte(len(p1) >> 8), byte(len(p1))}, p1...), p2...)
+}
+
+func vC07Split2(b []byte) (p1, p2 []byte) {
+	if len(b) < 2 {
+		return nil, nil
+	}
+	n := int(b[0])<<8 | int(b[1])
+	b = b[2:]
+	if n > len(b) {
+		n = len(b)
+	}
+	return b[:n], b[n:]
+}
+
+// a valid encoding damaged at one rejection point: truncated, one byte replaced by a value that
+// is wrong in most positions, a length field enlarged, or the tail cut
+func vC07Damage(r *vRng, valid []byte) []byte {
+	b := append([]byte{}, valid...)
+	if len(b) == 0 {
+		return []byte{0xff}
+	}
+	switch r.intn(6) {
+	case 0:
+		return b[:r.intn(len(b))]
+	case 1:
+		b[r.intn(len(b))] = byte(r.pickInt(0x0d, 0xff, 0x7f, 0x04, 0x11))
+	case 2:
+		if len(b) > 3 {
+			return b[:len(b)-1-r.intn(3)]
+		}
+		return b[:0]
+	case 3:
+		i := r.intn(len(b))
+		b[i] = 0xff
+		if i+1 < len(b) {
+			b[i+1] = 0xff
+		}
+	case 4:
+		b[0] ^= byte(1 + r.intn(255))
+	default:
+		return vC07Mutate(r, b, nil)
+	}
+	return b
+}
+
+func vC07Reuse(gen func(r *vRng) []byte) func(r *vRng) []byte {
+	return func(r *vRng) []byte {
+		bad := vC07Damage(r, gen(r))
+		if r.chance(1, 8) {
+			bad = gen(r) // both valid: plain reuse
+		}
+		return vC07Join2(bad, gen(r))
+	}
+}
+
 func minInt(a, b int) int {
 	if a < b {
 		return a
@@ -481,6 +545,10 @@ func (dr *vC07Driver) runFam(f *vC07Fam) {
 		if n > 65536 && (ts[len(ts)-1] >= 250*time.Millisecond && n == 131072 || ts[len(ts)-1] > 400*time.Millisecond) {
 			break
 		}
+		// quick tier: beyond 256 KiB only while the growth still looks superlinear
+		if n > 262144 && !k.thorough() && (ts[len(ts)-2] <= 0 || float64(ts[len(ts)-1])/float64(ts[len(ts)-2]) < 2.8) {
+			break
+		}
 		b := f.build(n)
 		if len(b) > n {
 			b = b[:n]
@@ -494,7 +562,7 @@ func (dr *vC07Driver) runFam(f *vC07Fam) {
 		}
 		reps := 5
 		if n > 65536 {
-			reps = 3
+			reps = 2
 		}
 		sizes = append(sizes, n)
 		inputs = append(inputs, b)
